@@ -18,6 +18,8 @@
 #include <amgcl/mpi/make_solver.hpp>
 #include <amgcl/mpi/amg.hpp>
 #include <amgcl/mpi/coarsening/runtime.hpp>
+#include <amgcl/mpi/coarsening/smoothed_aggregation.hpp>
+#include <amgcl/mpi/coarsening/pmis.hpp>
 #include <amgcl/mpi/relaxation/runtime.hpp>
 #include <amgcl/mpi/relaxation/as_preconditioner.hpp>
 #include <amgcl/mpi/direct_solver/skyline_lu.hpp>
@@ -110,6 +112,17 @@ static NS* nullspace_of(RtCoarsening &w) {
     }
 }
 template <class C> static NS* nullspace_of(C &) { return 0; }
+// smoothed aggregation only: the aggregation parameters the NEXT call of transfer_operators will use (eps_strong is halved
+// inside every call).  The recording wrapper runs amgcl::mpi::coarsening::pmis itself on a COPY of them right before the
+// call: PMIS is deterministic (no random weights), so this is the P_tent / strength pattern the coarsening computes inside.
+template <class B>
+static typename amgcl::mpi::coarsening::pmis<B>::params* sa_aggr_params(amgcl::runtime::mpi::coarsening::wrapper<B> &w) {
+    if (w.c == amgcl::runtime::mpi::coarsening::smoothed_aggregation)
+        return &static_cast<amgcl::mpi::coarsening::smoothed_aggregation<B>*>(w.handle)->prm.aggr;
+    return 0;
+}
+template <class B>
+static typename amgcl::mpi::coarsening::pmis<B>::params* sa_aggr_params(amgcl::mpi::coarsening::smoothed_aggregation<B> &c) { return &c.prm.aggr; }
 // dense rows x cols block as "{rows cols | 0:v 1:v ... | ...}"; the number of rows is what the object HOLDS
 // (B.size() / cols), the caller compares it with the number of rows the level has
 static std::string show_dense(const std::vector<double> &B, int cols) {
@@ -136,8 +149,15 @@ struct recording {
         std::string a = show_strip(A);      // before the call: sort_rows inside may reorder, never change
         NS *ns = nullspace_of(base);
         std::string b; if (ns && ns->cols > 0) b = show_dense(ns->B, ns->cols);
+        std::string tent, conn;
+        if (auto *ap = sa_aggr_params(base)) if (ap->nullspace.cols == 0) {
+            typename amgcl::mpi::coarsening::pmis<Backend>::params cp = *ap;
+            amgcl::mpi::coarsening::pmis<Backend> aggr(A, cp);
+            tent = show_strip(*aggr.p_tent); conn = show_strip(*aggr.conn, true);
+        }
         auto PR = base.transfer_operators(A);
         level_log().push_back("A" + a);
+        if (!tent.empty()) { level_log().push_back("T" + tent); level_log().push_back("S" + conn); }
         if (ns && ns->cols > 0) level_log().push_back("B" + b);
         level_log().push_back("P" + show_strip(*std::get<0>(PR)));
         level_log().push_back("R" + show_strip(*std::get<1>(PR)));
@@ -357,8 +377,15 @@ struct recording {
     std::tuple< std::shared_ptr<BDM>, std::shared_ptr<BDM> >
     transfer_operators(const BDM &A) {
         std::string a = show_strip(A);
+        std::string tent, conn;
+        if (auto *ap = sa_aggr_params(base)) if (ap->nullspace.cols == 0) {
+            typename amgcl::mpi::coarsening::pmis<BBackend>::params cp = *ap;
+            amgcl::mpi::coarsening::pmis<BBackend> aggr(A, cp);
+            tent = show_strip(*aggr.p_tent); conn = ::show_strip(*aggr.conn, true);
+        }
         auto PR = base.transfer_operators(A);
         level_log().push_back("A" + a);
+        if (!tent.empty()) { level_log().push_back("T" + tent); level_log().push_back("S" + conn); }
         level_log().push_back("P" + show_strip(*std::get<0>(PR)));
         level_log().push_back("R" + show_strip(*std::get<1>(PR)));
         return PR;
@@ -416,6 +443,53 @@ MOP(bdirect) {
     S(fl, xl);
     S(fl, x2);                                   // the solver object is reusable
     return "x=" + blk::show_bvec(xl) + " again x=" + blk::show_bvec(x2);
+}
+
+// ---------------------------------------------------------------- distributed smoothed aggregation on its own
+// sa  <eps_strong=q relax=q esr=0|1 levels=k> -- A parts
+// bsa <eps_strong=q relax=q levels=k> -- <b> A(block crs) parts
+//   amgcl::mpi::coarsening::smoothed_aggregation<Backend> itself: ONE coarsening object, transfer_operators called `levels`
+//   times on the same distributed matrix (the way mpi::amg uses the object level after level: eps_strong is halved inside
+//   every call).  Before every call pmis<Backend> is run on a copy of the aggregation parameters (= what the call computes
+//   inside).  Per call every rank reports  na=<its aggregates> T<strip of P_tent> S<strength pattern> P<strip> R<strip>.
+template <class B, class Show>
+static std::string run_sa(const amgcl::mpi::distributed_matrix<B> &D, ptree &cfg, Show show_m) {
+    typedef amgcl::mpi::coarsening::smoothed_aggregation<B> SA;
+    typedef amgcl::mpi::coarsening::pmis<B> PMIS;
+    typename SA::params prm;
+    prm.aggr.eps_strong = (double)vq::parse(cfg.get<std::string>("eps_strong", "2/25"));
+    prm.relax = (double)vq::parse(cfg.get<std::string>("relax", "1"));
+    prm.estimate_spectral_radius = cfg.get<int>("esr", 0) != 0;
+    prm.power_iters = 0;
+    int levels = cfg.get<int>("levels", 1);
+    quiet_cout q;
+    SA sa(prm);
+    std::ostringstream os;
+    for (int l = 0; l < levels; ++l) {
+        {
+            typename PMIS::params cp = sa.prm.aggr;
+            PMIS aggr(D, cp);
+            os << (l ? " " : "") << "na=" << aggr.p_tent->local()->ncols << " T" << show_m(*aggr.p_tent) << " S" << show_strip(*aggr.conn, true);
+        }
+        auto PR = sa.transfer_operators(D);
+        os << " P" << show_m(*std::get<0>(PR)) << " R" << show_m(*std::get<1>(PR));
+    }
+    return os.str();
+}
+struct ShowScalar { std::string operator()(const DM &M) const { return show_strip(M); } };
+struct ShowBlock  { std::string operator()(const blk::BDM &M) const { return blk::show_strip(M); } };
+MOP(sa) {
+    std::string cls; ptree cfg = config(t, cls);
+    auto A = t.crsT<double>(); Parts p = parts(t);
+    auto D = dist(*A, p, p);
+    return run_sa<Backend>(*D, cfg, ShowScalar());
+}
+MOP(bsa) {
+    std::string cls; ptree cfg = config(t, cls);
+    long b = t.i(); if (b != blk::N) return "UNSUPPORTED-BLOCK-SIZE";
+    auto A = blk::bcrs(t); Parts p = parts(t);
+    auto D = blk::dist(*A, p);
+    return run_sa<blk::BBackend>(*D, cfg, ShowBlock());
 }
 
 // ---------------------------------------------------------------- main loop
